@@ -55,7 +55,7 @@ class AnnotationDAGBuilder:
         parameters = [
             (name, bool(parameter.empty))
             for name, parameter in inspect.signature(run_method).parameters.items()
-            if name not in ('self', 'args', 'kwargs')
+            if parameter.kind not in (parameter.VAR_POSITIONAL, parameter.VAR_KEYWORD)
         ]
 
         if not annotations and parameters:
